@@ -74,13 +74,19 @@ func VerifHarness_C01() {
 	type podIn struct {
 		node   int
 		daemon bool
+		static bool
 	}
 	var pins []podIn
 	for j := 0; j < P; j++ {
 		js := strconv.Itoa(j)
 		node := verifChoice("p"+js+".node", N+2) - 2
-		daemon := verifChoice("p"+js+".daemon", 2) == 1
-		pins = append(pins, podIn{node, daemon})
+		kinds := 2
+		if j == 0 {
+			kinds = 3 // the first pod may also be a static pod
+		}
+		kind := verifChoice("p"+js+".daemon", kinds) // 0 ordinary, 1 daemonset-owned, 2 static pod selecting the group
+		daemon := kind == 1
+		pins = append(pins, podIn{node, daemon, kind == 2})
 		var cpu int64
 		switch band {
 		case 0:
@@ -96,7 +102,7 @@ func VerifHarness_C01() {
 			// in the earlier scan every pod sat on the first node
 			w.addPod(g, 0, false, cpu, 1<<20, false)
 		} else {
-			w.addPod(g, node, daemon, cpu, 1<<20, false)
+			w.makeStatic(w.addPod(g, node, daemon, cpu, 1<<20, false), kind == 2)
 		}
 	}
 	w.build()
@@ -111,6 +117,7 @@ func VerifHarness_C01() {
 		}
 		for j, p := range w.pods {
 			w.movePod(p, pins[j].node, pins[j].daemon)
+			w.makeStatic(p, pins[j].static)
 		}
 	}
 	cs := verifInt("clock.sec", 0, 3)
